@@ -612,3 +612,141 @@ Qed.
 Corollary prank_trans : forall a b c, wf0 a = true -> wf0 b = true -> wf0 c = true ->
   prank a b <> Gt -> prank b c <> Gt -> prank a c <> Gt.
 Proof. intros a b c Wa Wb Wc. apply ctr_le. apply prank_ctr; auto. Qed.
+
+(* ------------------------------------------------------------------ *)
+(* C07 on the model: rank0 on the universe                              *)
+(* ------------------------------------------------------------------ *)
+(* the universe at depth limit M: map keys are not collections, nesting within the limit *)
+Definition inU (M : nat) (v : val) : bool := wf0 v && (nest v <=? M).
+
+Lemma inU_spec : forall M v, inU M v = true -> wf0 v = true /\ nest v <= M.
+Proof. intros M v H. apply andb_prop in H. destruct H as [H1 H2]. apply Nat.leb_le in H2. auto. Qed.
+
+Lemma rank0_prank : forall M a b, inU M a = true -> inU M b = true -> rank0 M a b = R (prank a b).
+Proof.
+  intros M a b Ha Hb. apply inU_spec in Ha, Hb. apply rank0_pure; tauto.
+Qed.
+
+Theorem rank_refl : forall M a, inU M a = true -> rank0 M a a = R Eq.
+Proof.
+  intros M a Ha. rewrite rank0_prank by auto. apply inU_spec in Ha. rewrite prank_refl; tauto.
+Qed.
+
+Theorem rank_antisym : forall M a b, inU M a = true -> inU M b = true ->
+  rank0 M b a = flip_rank (rank0 M a b).
+Proof.
+  intros M a b Ha Hb. rewrite !rank0_prank by auto. apply inU_spec in Ha, Hb. simpl.
+  rewrite prank_anti; tauto.
+Qed.
+
+Theorem rank_trans : forall M a b c, inU M a = true -> inU M b = true -> inU M c = true ->
+  rank0 M a b <> R Gt -> rank0 M b c <> R Gt -> rank0 M a c <> R Gt.
+Proof.
+  intros M a b c Ha Hb Hc. rewrite !rank0_prank by auto. apply inU_spec in Ha, Hb, Hc.
+  intros H1 H2 H3. apply (prank_trans a b c); try tauto; congruence.
+Qed.
+
+(* strong form: equal-ranked values are interchangeable, Lt composes with Eq, ... *)
+Theorem rank_ctr : forall M a b c, inU M a = true -> inU M b = true -> inU M c = true ->
+  exists x y z, rank0 M a b = R x /\ rank0 M b c = R y /\ rank0 M a c = R z /\ ctr x y z.
+Proof.
+  intros M a b c Ha Hb Hc. exists (prank a b), (prank b c), (prank a c).
+  rewrite !rank0_prank by auto. apply inU_spec in Ha, Hb, Hc.
+  repeat split; auto. apply prank_ctr; tauto.
+Qed.
+
+(* the form consumed by C02 / C09: a total preorder on the type of universe members *)
+Definition U (M : nat) : Type := { v : val | inU M v = true }.
+Definition rkU (M : nat) (a b : U M) : comparison :=
+  match rank0 M (proj1_sig a) (proj1_sig b) with R c => c | _ => Eq end.
+
+Theorem rank_total_preorder : forall M, total_preorder (rkU M).
+Proof.
+  intros M. unfold rkU. repeat split.
+  - intros [a Ha]. simpl. rewrite rank_refl; auto.
+  - intros [a Ha] [b Hb]. simpl. rewrite (rank_antisym M a b) by auto.
+    rewrite (rank0_prank M a b) by auto. reflexivity.
+  - intros [a Ha] [b Hb] [c Hc]. simpl.
+    pose proof (rank_trans M a b c Ha Hb Hc) as T.
+    rewrite !rank0_prank in * by auto. intros H1 H2 H3. apply T; congruence.
+Qed.
+
+(* f. the result is a function of the two values only: not of the maximum (beyond bounding
+   the nesting), not of the depth at which the comparison happens, not of the fuel *)
+Theorem rank_history_independent : forall M M' f d a b,
+  inU M' a = true -> inU M' b = true ->
+  nest a + d <= M -> nest b + d <= M -> fuel_for a b <= f ->
+  rank M f d a b = rank0 M' a b.
+Proof.
+  intros M M' f d a b Ha Hb Na Nb Hf. rewrite rank0_prank by auto.
+  apply inU_spec in Ha, Hb. apply rank_pure; tauto.
+Qed.
+
+(* equal-ranked values are interchangeable in any comparison *)
+Theorem rank_congr : forall M a a' c, inU M a = true -> inU M a' = true -> inU M c = true ->
+  rank0 M a a' = R Eq -> rank0 M a c = rank0 M a' c /\ rank0 M c a = rank0 M c a'.
+Proof.
+  intros M a a' c Ha Ha' Hc. rewrite !rank0_prank by auto.
+  apply inU_spec in Ha, Ha', Hc. intros E. apply R_inj in E.
+  pose proof (prank_ctr a a' c ltac:(tauto) ltac:(tauto) ltac:(tauto)) as T1.
+  rewrite E in T1. simpl in T1.
+  pose proof (prank_ctr c a a' ltac:(tauto) ltac:(tauto) ltac:(tauto)) as T2. rewrite E in T2.
+  assert (T3 : prank c a' = prank c a) by (destruct (prank c a); simpl in T2; auto).
+  rewrite T1, T3. auto.
+Qed.
+
+(* d. the natural order on primitives *)
+Local Transparent rank.
+Theorem rank_nil_nil : forall M, rank0 M VNil VNil = R Eq.
+Proof. reflexivity. Qed.
+Theorem rank_nil_first : forall M b, b <> VNil -> rank0 M VNil b = R Lt /\ rank0 M b VNil = R Gt.
+Proof. intros M b H. destruct b; try contradiction; split; reflexivity. Qed.
+Theorem rank_bool_order : forall M x y, rank0 M (VBool x) (VBool y) = R (rank_bool x y).
+Proof. reflexivity. Qed.
+Theorem rank_false_lt_true : forall M, rank0 M (VBool false) (VBool true) = R Lt.
+Proof. reflexivity. Qed.
+Theorem rank_int_order : forall M w w' x y, rank0 M (VInt w x) (VInt w' y) = R (Z.compare x y).
+Proof. reflexivity. Qed.
+Theorem rank_uint_order : forall M w w' x y, rank0 M (VUint w x) (VUint w' y) = R (Z.compare x y).
+Proof. reflexivity. Qed.
+Theorem rank_byte_order : forall M x y, rank0 M (VByte x) (VByte y) = R (Z.compare x y).
+Proof. reflexivity. Qed.
+Theorem rank_rune_order : forall M x y, rank0 M (VRune x) (VRune y) = R (Z.compare x y).
+Proof. reflexivity. Qed.
+Theorem rank_string_order : forall M s t, rank0 M (VStr s) (VStr t) = R (lexZ s t).
+Proof. reflexivity. Qed.
+Theorem rank_float_order : forall M w w' x y,
+  rank0 M (VFloat w x) (VFloat w' y) = R (Z.compare (f_ord x) (f_ord y)).
+Proof. reflexivity. Qed.
+Theorem rank_complex_order : forall M w w' r1 i1 a1 p1 r2 i2 a2 p2,
+  rank0 M (VComplex w r1 i1 a1 p1) (VComplex w' r2 i2 a2 p2) =
+  R (lexZ [f_ord a1; f_ord p1; f_ord r1; f_ord i1] [f_ord a2; f_ord p2; f_ord r2; f_ord i2]).
+Proof.
+  intros. change (R (rank_complex r1 i1 a1 p1 r2 i2 a2 p2) = 
+    R (lexZ [f_ord a1; f_ord p1; f_ord r1; f_ord i1] [f_ord a2; f_ord p2; f_ord r2; f_ord i2])).
+  unfold rank_complex, rank_float. simpl.
+  destruct (f_ord a1 ?= f_ord a2)%Z; auto. destruct (f_ord p1 ?= f_ord p2)%Z; auto.
+  destruct (f_ord r1 ?= f_ord r2)%Z; auto. destruct (f_ord i1 ?= f_ord i2)%Z; auto.
+Qed.
+Theorem rank_pointer_order : forall M i j x y, rank0 M (VPtr i x) (VPtr j y) = R (Z.compare x y).
+Proof. reflexivity. Qed.
+Local Opaque rank.
+
+(* NaN is ranked before every number and equal to every NaN (bits of a float64) *)
+Lemma f_ord_nan_lt : forall x y, f_isnan x = true -> f_isnan y = false ->
+  (0 <= y < 2 * two63)%Z -> (f_ord x ?= f_ord y)%Z = Lt.
+Proof.
+  intros x y Hx Hy By. unfold f_ord. rewrite Hx, Hy. unfold f_key, f_mag.
+  apply Z.compare_lt_iff.
+  destruct (Z.ltb_spec y two63).
+  - unfold two63 in *. lia.
+  - pose proof (Z.mod_pos_bound y two63 ltac:(unfold two63; lia)). unfold two63 in *. lia.
+Qed.
+Theorem rank_nan_first : forall M w w' x y, f_isnan x = true -> f_isnan y = false ->
+  (0 <= y < 2 * two63)%Z -> rank0 M (VFloat w x) (VFloat w' y) = R Lt.
+Proof. intros. rewrite rank_float_order, f_ord_nan_lt; auto. Qed.
+Theorem rank_nan_nan : forall M w w' x y, f_isnan x = true -> f_isnan y = true ->
+  rank0 M (VFloat w x) (VFloat w' y) = R Eq.
+Proof.
+  intros. rewrite rank_float_order. unfold f_ord. rewrite H, H0. rewrite Z.compare_refl. reflexivity.
+Qed.
